@@ -723,7 +723,9 @@ def get_field(v, name):
                 return val
         return get_field(v[1], name)
     if v[0] == "mut":
-        return get_field(v[1], name)
+        inner = get_field(v[1], name)
+        ops = tuple(("op", o[1], o[2], o[3], o[4][1:]) for o in v[2] if len(o) > 4 and o[4] and o[4][0] == name)
+        return ("mut", inner, ops) if ops else inner
     return ("field", v, None, name)
 
 
@@ -924,7 +926,12 @@ def err_inventory(prog, fn, table_keys=(), depth=0):
        '?:<callee>'   an error that originates in a workspace callee's failure (`callee(..)?`, or an Err arm of a match
                       on its result, whatever error value is built there), set;
     errors from private helpers that are not themselves listed are expanded into the helper's own inventory."""
-    v = FnView.get(prog, fn)
+    # callee names must not depend on the inlining policy: use non-inlined terms here
+    class _V:
+        pass
+    v = _V()
+    v.cx = TermCx(prog, fn, inline=False)
+    v.facts = branch_facts(prog, fn, v.cx)
     inv = {}
 
     def add(k, n=1):
